@@ -129,7 +129,7 @@ def mutations(data: bytes, rng, n):
     out = []
     if not lines:
         return out
-    kinds = ["delete", "duplicate", "swap", "char", "overflow", "inflate", "blank", "multi"]
+    kinds = ["delete", "duplicate", "swap", "char", "overflow", "inflate", "blank", "multi", "blankfield", "blankfield"]
     for k in range(n):
         kind = kinds[k % len(kinds)]
         ls = list(lines)
@@ -160,6 +160,15 @@ def mutations(data: bytes, rng, n):
                 ls[i] = ls[i][:m.start()] + rep + ls[i][m.end():]
         elif kind == "blank":
             ls[i] = b"\n"
+        elif kind == "blankfield":
+            # a run of columns of one record garbled to spaces (fixed-width formats: a whole field disappears)
+            cand = [x for x in range(len(ls)) if len(ls[x].rstrip()) > 12]
+            if cand:
+                i = rng.choice(cand)
+                body = ls[i].rstrip(b"\r\n")
+                w = rng.randint(3, 14)
+                p = rng.randrange(0, max(1, len(body) - w))
+                ls[i] = body[:p] + b" " * w + body[p + w:] + ls[i][len(body):]
         else:
             for _ in range(3):
                 a = rng.randrange(len(ls))
@@ -186,6 +195,21 @@ def file_tasks(args):
     for _ in range(nbytes):
         if len(data) > 2:
             variants.append((data[:rng.randrange(1, len(data))], "truncate-byte"))
+    # a writer that crashed inside the last records: every second byte offset of the last two lines
+    tail = sum(len(x) for x in lines[-2:])
+    for off in range(max(1, len(data) - tail), len(data), 2)[:120]:
+        variants.append((data[:off], "truncate-byte"))
+    # one field at a time garbled to spaces, systematically over the columns of a few records (first, last and random ones)
+    recs = [x for x in range(nl) if len(lines[x].rstrip()) > 12]
+    if recs:
+        picks = {recs[0], recs[-1], recs[len(recs) // 2]} | {rng.choice(recs) for _ in range(3)}
+        for i in sorted(picks):
+            body = lines[i].rstrip(b"\r\n")
+            for w in (6, 8, 12):
+                for p0 in range(0, max(1, len(body) - w + 1), 3 if nmut < 100 else 1):
+                    new = body[:p0] + b" " * w + body[p0 + w:] + lines[i][len(body):]
+                    if new != lines[i]:
+                        variants.append((b"".join(lines[:i]) + new + b"".join(lines[i + 1:]), "mutation:blankfield"))
     variants += mutations(data, rng, nmut)
     variants.append((b"", "empty"))
     variants.append((bytes(rng.randrange(256) for _ in range(300)), "binary"))
